@@ -439,6 +439,10 @@ def run_check(prop, tier="quick", seed=0, replay=None, selftest=False, ncases=No
     violations = []     # dicts
     known = load_known()
     info = {"stages": {}}
+    if not replay:
+        import glob
+        for f in glob.glob(os.path.join(VERIF, "replays", "%s-%d-*.json" % (pid, seed))):
+            os.remove(f)
 
     # (a) build
     rc, out = coq_build()
